@@ -567,7 +567,12 @@ def c_eop(o):
 
 def to_coq(case, r):
     if case.get("kind") == "engine":
-        steps = [cpair(c_eop(o), ERR.get(st["err"], "EUnreachable"), clist([c_echan(e) for e in st["eng"]]))
+        def ecls(o, st):
+            # cesium's Channel.Validate rejects an empty name like any other invalid field
+            if o["op"] == "create" and st["err"] == "name_required":
+                return "ETsInvalid"
+            return ERR.get(st["err"], "EUnreachable")
+        steps = [cpair(c_eop(o), ecls(o, st), clist([c_echan(e) for e in st["eng"]]))
                  for o, st in zip(case["eops"], r["esteps"])]
         return "(CEngine %s)" % clist(steps)
     if r.get("unsettled") or not r["base"].get("agree", True):
